@@ -51,6 +51,11 @@ theorem transitions_record_matches_type :
       (r.2.2.2.1 = "pm" → (r.2.2.2.2.2 = "A, traits::" ++ r.2.2.2.2.1 ++ ", LM" ∨ r.2.2.2.2.2 = "A, traits::" ++ r.2.2.2.2.1 ++ ", traits::Unlocked")) := by
   decide
 
+/-- the advice passed to `madvise` next to locking / unlocking: exclude from core dumps when locking, include again when unlocking —
+in particular never `MADV_DONTNEED` / `MADV_FREE`, which would discard the contents of a region that is not locked -/
+theorem madvise_advice :
+    Gen.Protected.madvise_advice = [("dryoc_mlock", "MADV_DONTDUMP"), ("dryoc_munlock", "MADV_DODUMP")] := by decide
+
 theorem drop_path :
     Gen.Protected.zeroize_body_is_canonical = true ∧ Gen.Protected.drop_is_zeroize = true ∧
     Gen.Protected.deallocate_wipes_before_free = true := by decide
